@@ -18,6 +18,7 @@ def run(chk: Check):
               {"hdr": {"kind": "set_seed"}, "ev": D.set_seed_events(rng)},
               {"hdr": {"kind": "group"}, "ev": D.group_events(rng)},
               {"hdr": {"kind": "builder_ops"}, "ev": D.builder_ops_events(rng, 60 if chk.quick else 600)},
+              {"hdr": {"kind": "gb_update"}, "ev": D.gb_update_events(rng, 40 if chk.quick else 600)},
               {"hdr": {"kind": "builder_order"}, "ev": D.builder_order_events(rng, 5 if chk.quick else 40)},
               {"hdr": {"kind": "replace_var"}, "ev": D.replace_var_events(rng, 60 if chk.quick else 800)},
               {"hdr": {"kind": "distreg_wiring"}, "ev": D.wiring_events()},
@@ -238,3 +239,8 @@ def mvnd_numeric(chk, rng):
              f"second-order difference penalty (d = 6): for {len(bad)} of {len(grid)} variance parameters in [0.01, 25] the draw "
              f"is dominated by a null-space component (norm up to {worst:.0f}); largest affected variance {max(bad) if bad else None}. "
              "C17's support check fixes the variance at 25 for that reason.")
+
+
+def gb_update_only(chk, rng):
+    chk.tv("Trace_Growth.tla", [{"hdr": {"kind": "gb_update"}, "ev": D.gb_update_events(rng, 60)}], tag="gb_update",
+           keyfn=lambda r: f"{r.trace['hdr']['kind']}:{r.conjunct}", describe=lambda r: str(r.trace["ev"][r.line - 1])[:600])
